@@ -397,8 +397,8 @@ def r3_failures(ctx, rid="C14.R3"):
     ctx.check(R, "token-error-propagates", prop, "%s always reaches the return of the mapped error and builds no Ok / WhichPage" % how, where)
     # the query loader
     # (normalised view: `.map_err(f)?`, `match .. { Err(e) => return Err(f(e)) }` and a helper called from either are one program)
-    ql = callers(ctx.dsn, r"^serde_urlencoded::from_str$")
-    ctx.check(R, "one-query-loader", len(ql) == 1, "callers of serde_urlencoded::from_str: %s" % [f.id for f, _, _ in ql], ql[0][0] if ql else None)
+    ql = callers(ctx.dsn, r"^serde_urlencoded::(from_str|from_bytes)$")
+    ctx.check(R, "one-query-loader", len(ql) == 1, "callers of serde_urlencoded::from_str|from_bytes: %s" % [f.id for f, _, _ in ql], ql[0][0] if ql else None)
     st400 = status_const_of_ctor(ctx.ds, "for_bad_request")
     for f, qbb, qt in ql:
         # every Err the loader can return is built by for_bad_request: `Err(for_bad_request(..))` in a match arm,
